@@ -15,6 +15,7 @@ use sudachi::config::ConfigBuilder;
 use sudachi::dic::dictionary::JapaneseDictionary;
 use sudachi::dic::storage::{Storage, SudachiDicData};
 use sudachi::dic::subset::InfoSubset;
+use sudachi::sentence_splitter::{SentenceSplitter, SplitSentences};
 
 fn mode_of(s: &str) -> Mode {
     match s {
@@ -31,7 +32,11 @@ fn run_thread(dict: Arc<JapaneseDictionary>, ops: Vec<serde_json::Value>) -> Vec
     for op in ops {
         let text = op["text"].as_str().unwrap_or("");
         if op["op"] == "sentences" {
-            continue; // the sentence detector's regexes are too slow to recompile per iteration
+            // only present in the scenarios that keep these operations (the expectations are aligned with the operations)
+            let sp = SentenceSplitter::with_limit(64).with_checker(dict.lexicon());
+            let v: Vec<String> = sp.split(text).map(|(r, _)| format!("{}-{}", r.start, r.end)).collect();
+            out.push(v.join(","));
+            continue;
         }
         tok.set_mode(mode_of(op["mode"].as_str().unwrap_or("C")));
         tok.set_subset(InfoSubset::from_bits_truncate(op["subset"].as_u64().unwrap_or(1023) as u32));
@@ -144,9 +149,7 @@ fn main() {
                 .as_array()
                 .unwrap()
                 .iter()
-                .zip(sc2["threads"][i]["ops"].as_array().unwrap().iter())
-                .filter(|(_, o)| o["op"] != "sentences")
-                .map(|(x, _)| x.as_str().unwrap().to_string())
+                .map(|x| x.as_str().unwrap().to_string())
                 .collect();
             assert_eq!(got.len(), exp.len(), "RESULT-DIFFERS-FROM-SEQUENTIAL thread={} op count", i);
             for (k, (g, e)) in got.iter().zip(exp.iter()).enumerate() {
